@@ -130,6 +130,14 @@ class FeatureUnion(_FeatureUnion, _PanelToPanelTransformer):
 
         types = set(type(X) for X in Xs)
         if self.preserve_dataframe and (pd.Series in types or pd.DataFrame in types):
+            # member outputs correspond by position (one row per instance, in
+            # input order); pd.concat would otherwise match rows by index label
+            Xs = [
+                X.reset_index(drop=True)
+                if isinstance(X, (pd.Series, pd.DataFrame))
+                else pd.DataFrame(X)
+                for X in Xs
+            ]
             return pd.concat(Xs, axis=1)
 
         else:
